@@ -143,19 +143,50 @@ def py_readout(rdoc):
     return Readout(**rdoc)
 
 
+def py_outputs(kind: str, odoc):
+    if odoc is None:
+        return None
+    from pyxel import outputs as po
+
+    cls = {"exposure": po.ExposureOutputs, "observation": po.ObservationOutputs,
+           "calibration": po.CalibrationOutputs}[kind]
+    return cls(**copy.deepcopy(odoc))
+
+
 def py_mode(kind: str, mdoc: dict):
     mdoc = copy.deepcopy(mdoc or {})
     if kind == "exposure":
         from pyxel.exposure import Exposure
 
-        return Exposure(readout=py_readout(mdoc.get("readout")), result_type=mdoc.get("result_type", "all"),
-                        pipeline_seed=mdoc.get("pipeline_seed"))
+        kw = {k: mdoc[k] for k in ("result_type", "pipeline_seed", "working_directory") if k in mdoc}
+        if "outputs" in mdoc:
+            kw["outputs"] = py_outputs(kind, mdoc["outputs"])
+        return Exposure(readout=py_readout(mdoc.get("readout")), **kw)
     if kind == "observation":
         from pyxel.observation import Observation, ParameterValues
 
         params = [ParameterValues(**p) for p in mdoc["parameters"]]
-        kw = {k: mdoc[k] for k in ("mode", "with_dask", "result_type", "pipeline_seed") if k in mdoc}
+        kw = {k: mdoc[k] for k in ("mode", "with_dask", "result_type", "pipeline_seed", "working_directory")
+              if k in mdoc}
+        if "outputs" in mdoc:
+            kw["outputs"] = py_outputs(kind, mdoc["outputs"])
         return Observation(parameters=params, readout=py_readout(mdoc.get("readout")), **kw)
+    if kind == "calibration":
+        from pyxel.calibration import Algorithm, Calibration
+        from pyxel.observation import ParameterValues
+        from pyxel.pipelines import FitnessFunction
+
+        kw = {k: v for k, v in mdoc.items()
+              if k not in ("readout", "outputs", "fitness_function", "algorithm", "parameters", "result_input_arguments")}
+        if "outputs" in mdoc:
+            kw["outputs"] = py_outputs(kind, mdoc["outputs"])
+        if "result_input_arguments" in mdoc:
+            kw["result_input_arguments"] = [ParameterValues(**q) for q in mdoc["result_input_arguments"]]
+        ff = mdoc["fitness_function"]
+        return Calibration(fitness_function=FitnessFunction(func=ff["func"], arguments=ff.get("arguments")),
+                           algorithm=Algorithm(**mdoc["algorithm"]),
+                           parameters=[ParameterValues(**q) for q in mdoc["parameters"]],
+                           readout=py_readout(mdoc.get("readout")), **kw)
     raise ValueError(kind)
 
 
@@ -312,6 +343,33 @@ def func_name(model, doc_func):
     return f"{getattr(f, '__module__', '?')}.{getattr(f, '__name__', '?')}"
 
 
+def canon_save(v):
+    """[{name: [formats]}, ...] -> [[name, [formats]], ...]"""
+    if v is None:
+        return None
+    return [[str(k), [str(f) for f in fmts]] for d in v for k, fmts in dict(d).items()]
+
+
+def outputs_settings(out, prefix, o, data_key):
+    out[prefix + ".present"] = o is not None
+    if o is None:
+        return
+    out[prefix + ".output_folder"] = Path(o.output_folder).as_posix()
+    out[prefix + ".custom_dir_name"] = jleaf(o.custom_dir_name)
+    out[prefix + ".save_data_to_file"] = canon_save(o.save_data_to_file)
+    for attr in (data_key, "_" + data_key, "_" + data_key + "_deprecated"):
+        if hasattr(o, attr):
+            out[prefix + "." + data_key] = canon_save(getattr(o, attr))
+            break
+    else:
+        out[prefix + "." + data_key] = "<missing>"
+
+
+ALGO_PARAMS = ("type", "generations", "population_size", "variant", "variant_adptv", "ftol", "xtol", "memory", "cr",
+               "eta_c", "m", "param_m", "param_s", "crossover", "mutation", "selection", "nlopt_solver", "maxtime",
+               "maxeval", "xtol_rel", "xtol_abs", "ftol_rel", "ftol_abs", "stopval", "replacement", "nlopt_selection")
+
+
 def read_settings(cfg, doc) -> dict:
     out = {}
     det = cfg.detector
@@ -332,8 +390,10 @@ def read_settings(cfg, doc) -> dict:
     out["mode.readout.non_destructive"] = jleaf(ro.non_destructive)
     out["mode.pipeline_seed"] = jleaf(mode.pipeline_seed)
     out["mode.result_type"] = jleaf(str(mode.result_type))
-    if mode.outputs is not None:
-        out["mode.outputs.output_folder"] = jleaf(str(mode.outputs.output_folder))
+    out["mode.working_directory"] = None if mode.working_directory is None else str(mode.working_directory)
+    outputs_settings(out, "mode.outputs", mode.outputs, {"exposure": "save_exposure_data",
+                                                         "observation": "save_observation_data",
+                                                         "calibration": "save_calibration_data"}.get(kind, "?"))
 
     def params(prefix, plist):
         for i, pv in enumerate(plist):
@@ -363,13 +423,22 @@ def read_settings(cfg, doc) -> dict:
         out["mode.num_best_decisions"] = jleaf(mode.num_best_decisions)
         out["mode.topology"] = jleaf(mode.topology)
         alg = mode.algorithm
-        for a in ("type", "generations", "population_size", "variant"):
-            v = getattr(alg, a)
+        for a in ALGO_PARAMS:
+            v = getattr(alg, a, getattr(alg, "_" + a, "<missing>"))
             out[f"mode.algorithm.{a}"] = jleaf(getattr(v, "value", v))
         ff = mode.fitness_function
         want = doc["calibration"]["fitness_function"]["func"]
         out["mode.fitness_function.func"] = want if _resolves(want, ff) else "<another function>"
+        fargs = getattr(ff, "_arguments", "<missing>")
+        out["mode.fitness_function.arguments.count"] = None if fargs is None else len(fargs)
+        for a, v in (fargs or {}).items():
+            out[f"mode.fitness_function.arguments.{a}"] = jleaf(v)
         params("mode.parameters", list(mode.parameters))
+        params("mode.result_input_arguments", list(mode.result_input_arguments))
+        out["mode.type_islands"] = jleaf(getattr(mode._type_islands, "value", mode._type_islands))
+        out["mode.weights"] = jleaf(mode.weights)
+        out["mode.weights_from_file"] = jleaf(None if mode.weights_from_file is None
+                                               else [Path(q).name for q in mode.weights_from_file])
     pdoc = doc.get("pipeline") or {}
     for g in GROUPS:
         grp = getattr(cfg.pipeline, g)
@@ -563,6 +632,63 @@ def handle_sweeprun(p):
     return out
 
 
+class _Built:
+    pass
+
+
+def built_diff(loaded_settings: dict, doc: dict):
+    """settings of the same objects built in Python (without pyxel.configuration) that differ from the loaded ones"""
+    import pyxel
+
+    mk = [k for k in ("exposure", "observation", "calibration") if k in doc][0]
+    dk = [k for k in DET_KEY.values() if k in doc][0]
+    d2 = copy.deepcopy(doc)
+    pyxel.set_options(working_directory=None)   # as at the start of a load
+    try:
+        b = _Built()
+        b.detector = py_detector(dk.split("_")[0], d2[dk])
+        b.pipeline = py_pipeline(d2["pipeline"])
+        b.running_mode = py_mode(mk, d2[mk])
+        sb = read_settings(b, doc)
+    except Exception as ex:  # noqa: BLE001
+        return {"raised": type(ex).__name__, "msg": str(ex)[:300]}
+    finally:
+        pyxel.set_options(working_directory=None)
+    skip = set()
+    if mk == "calibration" and "pygmo_seed" not in (doc[mk] or {}):
+        skip.add("mode.pygmo_seed")     # drawn at random when the file does not give it
+    keys = sorted(k for k in set(loaded_settings) | set(sb)
+                  if k not in skip and loaded_settings.get(k, "<missing>") != sb.get(k, "<missing>"))
+    return {"keys": keys[:12], "loaded": {k: loaded_settings.get(k, "<missing>") for k in keys[:6]},
+            "built": {k: sb.get(k, "<missing>") for k in keys[:6]}}
+
+
+def detector_settings(det) -> dict:
+    out = {}
+    for sec in ("geometry", "environment", "characteristics"):
+        for k, v in dict(getattr(det, sec).to_dict()).items():
+            if isinstance(v, dict):
+                for kk, vv in v.items():
+                    out[f"detector.{sec}.{k}.{kk}"] = jleaf(vv)
+            else:
+                out[f"detector.{sec}.{k}"] = jleaf(v)
+    return out
+
+
+def do_sweep_point(cfg, doc, op) -> dict:
+    """one point of a sweep over a detector setting: Processor.replace({key: value}) on the loaded objects"""
+    from pyxel.pipelines import Processor
+
+    before = detector_settings(cfg.detector)
+    try:
+        proc = Processor(detector=cfg.detector, pipeline=cfg.pipeline)
+        new = proc.replace({op["key"]: op["value"]})
+    except Exception as ex:  # noqa: BLE001
+        return {"raised": type(ex).__name__, "msg": str(ex)[:200], "before": before,
+                "after": detector_settings(cfg.detector)}
+    return {"settings": detector_settings(new.detector), "before": before, "after": detector_settings(cfg.detector)}
+
+
 def handle_settings(p):
     import pyxel
 
@@ -571,13 +697,18 @@ def handle_settings(p):
         for f in doc["calibration"].get("target_data_path", []):
             if not Path(f).exists():
                 np.savetxt(f, np.ones((2, 3)))
+    for name, vals in (p.get("files") or {}).items():
+        np.save(name, np.asarray(vals, dtype=float))
     try:
         cfg = pyxel.load(dump_yaml(doc, "settings"))
     except Exception as ex:  # noqa: BLE001
         return {"loaded": False, "exc": type(ex).__name__, "msg": str(ex)[:300]}
     out = {"loaded": True, "settings": read_settings(cfg, doc)}
+    out["built_diff"] = built_diff(out["settings"], doc)
     if p.get("derive"):
         out["derived"] = [do_derive(cfg, op) for op in p["derive"]]
+    if p.get("sweeps"):
+        out["swept"] = [do_sweep_point(cfg, doc, op) for op in p["sweeps"]]
     if p.get("run"):
         out["run"] = run_both(cfg, doc)
     return out
@@ -587,6 +718,9 @@ def handle(p):
     import warnings
 
     warnings.filterwarnings("ignore")
+    import pyxel
+
+    pyxel.set_options(working_directory=None)   # a previous document of this worker may have set it
     k = p["k"]
     if k == "guard":
         return handle_guard(p)
